@@ -11,6 +11,7 @@ import (
 	"strings"
 	"time"
 
+	"github.com/tmpim/casket/casketfile"
 	"github.com/tmpim/casket/caskethttp/httpserver"
 	"github.com/tmpim/casket/zzverif/verifrt"
 )
@@ -433,4 +434,74 @@ func VerifH04cRetry() {
 	xff := out.Header["X-Forwarded-For"]
 	verifrt.Assert(len(xff) == 1 && xff[0] == "1.2.3.4", "retry-xff-once")
 	verifrt.Observe("retry", out.URL.Path, out.URL.RawQuery)
+}
+
+// VerifH04dConfigured: the upstream block is built by the real parser (NewStaticUpstreams) from
+// Casketfile text, so the configured `without` prefix and header rules are the ones the parser
+// stores: path changed only by base and `without` exactly as written (a trailing slash counts),
+// header_upstream / header_downstream rules -- plain ones, search/replace ones, or both -- applied.
+func VerifH04dConfigured() {
+	without := []string{"", "/a", "/a/"}[verifrt.Choose("without", 3)]
+	upRules := verifrt.Choose("upstream-rules", 4)     // 0 none, 1 plain, 2 replace, 3 both
+	downRules := verifrt.Choose("downstream-rules", 4) // same
+	text := "proxy /a http://backend/b {\n"
+	if without != "" {
+		text += "\twithout " + without + "\n"
+	}
+	if upRules&1 != 0 {
+		text += "\theader_upstream X-Set sv\n"
+	}
+	if upRules&2 != 0 {
+		text += "\theader_upstream X-R ^a z\n"
+	}
+	if downRules&1 != 0 {
+		text += "\theader_downstream X-DSet dv\n"
+	}
+	if downRules&2 != 0 {
+		text += "\theader_downstream X-D ^a z\n"
+	}
+	text += "}\n"
+	ups, err := NewStaticUpstreams(casketfile.NewDispenser("Casketfile", strings.NewReader(text)), "")
+	if err != nil || len(ups) != 1 {
+		verifrt.Fail("configuration-accepted")
+		return
+	}
+	u := ups[0].(*staticUpstream)
+	be := &zzBackend{resp: func(req *http.Request) *http.Response {
+		return &http.Response{StatusCode: 200, Header: http.Header{"X-D": []string{"abc"}}, Body: io.NopCloser(bytes.NewReader(nil))}
+	}}
+	for _, h := range u.Hosts {
+		h.ReverseProxy.Transport = be
+		h.ReverseProxy.FlushInterval = 0
+	}
+	p := Proxy{Upstreams: ups}
+	path := "/a" + zzSym("path", 3, "ab/")
+	r := &http.Request{Method: "GET", URL: &url.URL{Path: path}, Header: http.Header{"X-R": []string{"abc"}}, Host: "site", RemoteAddr: "1.2.3.4:5", Body: http.NoBody,
+		Proto: "HTTP/1.1", ProtoMajor: 1, ProtoMinor: 1}
+	w := &zzClientW{}
+	status, serr := p.ServeHTTP(w, r)
+	verifrt.Assert(status == 0 && serr == nil && be.calls == 1, "proxied")
+	if be.seen == nil {
+		return
+	}
+	out := be.seen
+	rest := strings.TrimPrefix(path, without)
+	want := "/b" + rest
+	if !strings.HasPrefix(rest, "/") && rest != "" {
+		want = "/b/" + rest
+	}
+	verifrt.Assert(out.URL.Path == want, "path-changed-only-by-base-and-without-as-written")
+	wantR := "abc"
+	if upRules&2 != 0 {
+		wantR = "zbc"
+	}
+	verifrt.Assert(out.Header.Get("X-R") == wantR, "upstream-replace-rule-applied-iff-configured")
+	verifrt.Assert((out.Header.Get("X-Set") == "sv") == (upRules&1 != 0), "upstream-set-rule-applied-iff-configured")
+	wantD := "abc"
+	if downRules&2 != 0 {
+		wantD = "zbc"
+	}
+	verifrt.Assert(w.Header().Get("X-D") == wantD, "downstream-replace-rule-applied-iff-configured")
+	verifrt.Assert((w.Header().Get("X-DSet") == "dv") == (downRules&1 != 0), "downstream-set-rule-applied-iff-configured")
+	verifrt.Observe("configured", out.URL.Path, out.Header.Get("X-R"), w.Header().Get("X-D"))
 }
